@@ -99,6 +99,71 @@ fn find_rel_pair() {
     println!("NO-WITNESS find_rel_pair");
 }
 
+/// clauses TextSelectionSet::test / test_set and TextSelection::test_set  (C13): the set semantics of DESIGN.md appendix A
+/// (`all` / SameRange make a set act as its bounding range; otherwise every subject member against some / every reference member;
+/// set Equals additionally needs equal sizes), executable
+#[test]
+fn find_rel_sets() {
+    let store = store_with_text();
+    let resource: &TextResource = store.get("r").unwrap();
+    let chars: Vec<char> = TEXT.chars().collect();
+    let gap = |x: usize, y: usize| chars[x..y].iter().all(|c| c.is_whitespace());
+    let negated = |op: &TextSelectionOperator| -> bool { match op {
+        TextSelectionOperator::Equals { negate, .. } | TextSelectionOperator::InSet { negate, .. } | TextSelectionOperator::Overlaps { negate, .. } | TextSelectionOperator::Embeds { negate, .. }
+        | TextSelectionOperator::Embedded { negate, .. } | TextSelectionOperator::Before { negate, .. } | TextSelectionOperator::After { negate, .. } | TextSelectionOperator::Precedes { negate, .. }
+        | TextSelectionOperator::Succeeds { negate, .. } | TextSelectionOperator::SameBegin { negate, .. } | TextSelectionOperator::SameEnd { negate, .. } | TextSelectionOperator::SameRange { negate, .. } => *negate } };
+    let is_all = |op: &TextSelectionOperator| -> bool { match op {
+        TextSelectionOperator::Equals { all, .. } | TextSelectionOperator::InSet { all, .. } | TextSelectionOperator::Overlaps { all, .. } | TextSelectionOperator::Embeds { all, .. }
+        | TextSelectionOperator::Embedded { all, .. } | TextSelectionOperator::Before { all, .. } | TextSelectionOperator::After { all, .. } | TextSelectionOperator::Precedes { all, .. }
+        | TextSelectionOperator::Succeeds { all, .. } | TextSelectionOperator::SameBegin { all, .. } | TextSelectionOperator::SameEnd { all, .. } | TextSelectionOperator::SameRange { all, .. } => *all } };
+    let rel_pos = |op: &TextSelectionOperator, a: &TextSelection, b: &TextSelection| rel_spec(op, a, b, &gap) != negated(op);
+    let bound = |s: &Vec<TextSelection>| ts(s.iter().map(|t| t.begin).min().unwrap(), s.iter().map(|t| t.end).max().unwrap());
+    let subject_by_bound = |op: &TextSelectionOperator| match op { TextSelectionOperator::SameRange { .. } => true,
+        TextSelectionOperator::Precedes { all, .. } | TextSelectionOperator::Succeeds { all, .. } | TextSelectionOperator::Before { all, .. } | TextSelectionOperator::After { all, .. }
+        | TextSelectionOperator::SameBegin { all, .. } | TextSelectionOperator::SameEnd { all, .. } => *all, _ => false };
+    let s1_pos = |op: &TextSelectionOperator, a: &TextSelection, bs: &Vec<TextSelection>| -> bool { match op {
+        TextSelectionOperator::Equals { .. } | TextSelectionOperator::InSet { .. } => bs.iter().any(|b| a == b),
+        TextSelectionOperator::SameRange { .. } | TextSelectionOperator::Precedes { all: true, .. } | TextSelectionOperator::Succeeds { all: true, .. }
+        | TextSelectionOperator::SameBegin { all: true, .. } | TextSelectionOperator::SameEnd { all: true, .. } => !bs.is_empty() && rel_pos(op, a, &bound(bs)),
+        _ => if is_all(op) { !bs.is_empty() && bs.iter().all(|b| rel_pos(op, a, b)) } else { bs.iter().any(|b| rel_pos(op, a, b)) } } };
+    let t1 = |op: &TextSelectionOperator, xs: &Vec<TextSelection>, b: &TextSelection| -> bool {
+        !xs.is_empty() && ((if subject_by_bound(op) { rel_pos(op, &bound(xs), b) } else { xs.iter().all(|x| rel_pos(op, x, b)) }) != negated(op)) };
+    let s2 = |op: &TextSelectionOperator, xs: &Vec<TextSelection>, bs: &Vec<TextSelection>| -> bool {
+        !xs.is_empty() && ((if subject_by_bound(op) { s1_pos(op, &bound(xs), bs) } else {
+            (!matches!(op, TextSelectionOperator::Equals { .. }) || xs.len() == bs.len()) && xs.iter().all(|x| s1_pos(op, x, bs)) }) != negated(op)) };
+    let ranges = [(0usize, 2usize), (0, 4), (2, 4), (4, 6), (2, 6), (6, 9), (8, 9), (4, 4)];
+    // member lists: every single range, every ordered pair of different ranges (both insertion orders), and one triple
+    let mut lists: Vec<Vec<TextSelection>> = vec![];
+    for (i, a) in ranges.iter().enumerate() { lists.push(vec![ts(a.0, a.1)]); for (j, b) in ranges.iter().enumerate() { if i != j { lists.push(vec![ts(a.0, a.1), ts(b.0, b.1)]); } } }
+    lists.push(vec![ts(0, 2), ts(4, 6), ts(8, 9)]);
+    let mk = |l: &Vec<TextSelection>, sorted: bool| { let mut s = TextSelectionSet::new(resource.handle().unwrap()); for t in l { s.add(t.clone()); } if sorted { s.sort(); } s };
+    for op in all_ops() {
+        for xs in &lists { for sorted in [false, true] {
+            let subject = mk(xs, sorted);
+            for r in ranges.iter() {
+                let b = ts(r.0, r.1);
+                let got = std::panic::catch_unwind(std::panic::AssertUnwindSafe(|| subject.test(&op, &b, resource)));
+                if got.as_ref().ok() != Some(&t1(&op, xs, &b)) { println!("WITNESS {{\"clause\":\"TextSelectionSet::test/equals_spec\",\"operator\":\"{:?}\",\"subject\":\"{:?}\",\"sorted\":{},\"reference\":[{},{}],\"got\":\"{:?}\",\"spec\":{}}}", op, xs.iter().map(|t| (t.begin, t.end)).collect::<Vec<_>>(), sorted, r.0, r.1, got.ok(), t1(&op, xs, &b)); return; }
+            }
+            for bs in lists.iter().chain(std::iter::once(&vec![])) {
+                // (reference sets in insertion order and sorted)
+                for rsorted in [false, true] {
+                    let refset = mk(bs, rsorted);
+                    let got = std::panic::catch_unwind(std::panic::AssertUnwindSafe(|| subject.test_set(&op, &refset, resource)));
+                    if got.as_ref().ok() != Some(&s2(&op, xs, bs)) { println!("WITNESS {{\"clause\":\"TextSelectionSet::test_set/equals_spec\",\"operator\":\"{:?}\",\"subject\":\"{:?}\",\"sorted\":{},\"reference\":\"{:?}\",\"reference_sorted\":{},\"got\":\"{:?}\",\"spec\":{}}}", op, xs.iter().map(|t| (t.begin, t.end)).collect::<Vec<_>>(), sorted, bs.iter().map(|t| (t.begin, t.end)).collect::<Vec<_>>(), rsorted, got.ok(), s2(&op, xs, bs)); return; }
+                    if xs.len() == 1 && !sorted {
+                        let a = xs[0].clone();
+                        let want = s1_pos(&op, &a, bs) != negated(&op);
+                        let got = std::panic::catch_unwind(std::panic::AssertUnwindSafe(|| a.test_set(&op, &refset, resource)));
+                        if got.as_ref().ok() != Some(&want) { println!("WITNESS {{\"clause\":\"TextSelection::test_set/equals_spec\",\"operator\":\"{:?}\",\"subject\":[{},{}],\"reference\":\"{:?}\",\"reference_sorted\":{},\"got\":\"{:?}\",\"spec\":{}}}", op, a.begin, a.end, bs.iter().map(|t| (t.begin, t.end)).collect::<Vec<_>>(), rsorted, got.ok(), want); return; }
+                    }
+                }
+            }
+        }}
+    }
+    println!("NO-WITNESS find_rel_sets");
+}
+
 /// clause TextResource::textselection_by_offset/accept_iff  (C04)
 #[test]
 fn find_offset_accept() {
@@ -531,6 +596,17 @@ fn find_segmentation() {
         if got != want {
             println!("WITNESS {{\"clause\":\"SegmentationIter::next\",\"milestone_interval\":{},\"selections_mask\":{},\"got\":\"{:?}\",\"want\":\"{:?}\"}}", interval, mask, got, want);
             return;
+        }
+        // a range of the text: the pieces partition [b, e) and are cut at every begin and end of a known selection inside it
+        for (b, e) in [(0usize, n), (1, 9), (2, 6), (3, 4), (4, 10), (0, 3)] {
+            let mut inner: Vec<usize> = cuts.iter().copied().filter(|c| *c > b && *c < e).collect();
+            inner.insert(0, b); inner.push(e);
+            let want: Vec<(usize, usize)> = inner.windows(2).map(|w| (w[0], w[1])).collect();
+            let got: Vec<(usize, usize)> = store.resource("r").unwrap().segmentation_in_range(b, e).map(|s| (s.begin(), s.end())).collect();
+            if got != want {
+                println!("WITNESS {{\"clause\":\"segmentation_in_range\",\"milestone_interval\":{},\"selections_mask\":{},\"range\":[{},{}],\"got\":\"{:?}\",\"want\":\"{:?}\"}}", interval, mask, b, e, got, want);
+                return;
+            }
         }
     }}
     println!("NO-WITNESS find_segmentation");
